@@ -92,4 +92,291 @@ theorem dropAll_getState (ds : List Inst) (f : FC) (i : Inst) (h : i ∉ ds) :
     have ht : i ∉ t := fun e => h (by simp [e])
     rw [ih _ ht, drop_getState_ne _ _ _ hd]
 
+
+/-! ### `FC.put` / `setState` -/
+
+theorem put_states (f : FC) (j : Inst) (st : IState) (c : Int) :
+    ∀ p ∈ (f.put j st c).states, p ∈ f.states ∨ p.1 = j := by
+  intro p hp
+  simp only [FC.put, List.mem_append, List.mem_filter, List.mem_singleton] at hp
+  cases hp with
+  | inl h => exact Or.inl h.1
+  | inr h => exact Or.inr (by rw [h])
+
+theorem put_getState_ne (f : FC) (i j : Inst) (st : IState) (c : Int) (h : i ≠ j) :
+    (f.put j st c).getState i = f.getState i := by
+  unfold FC.getState FC.put
+  simp only [List.find?_append, find_filter_ne _ _ _ h]
+  have : ([(j, st)] : List (Inst × IState)).find? (·.1 == i) = none := by
+    simp [List.find?_cons, Ne.symm h]
+  rw [this]; simp
+
+theorem setState_cases (f : FC) (j : Inst) (rid cur : Int) :
+    (setState f j rid cur).1 = f ∨ (setState f j rid cur).1 = f.drop j ∨
+      ∃ st c, (setState f j rid cur).1 = f.put j st c := by
+  unfold setState
+  repeat' (first | split | (simp only []; split))
+  all_goals first
+    | exact Or.inl rfl
+    | exact Or.inr (Or.inl rfl)
+    | exact Or.inr (Or.inr ⟨_, _, rfl⟩)
+
+theorem setState_isMif (f : FC) (j : Inst) (rid cur : Int) : (setState f j rid cur).1.isMif = f.isMif := by
+  rcases setState_cases f j rid cur with h | h | ⟨st, c, h⟩
+  · rw [h]
+  · rw [h, drop_isMif]
+  · rw [h]; rfl
+
+theorem setState_name (f : FC) (j : Inst) (rid cur : Int) : (setState f j rid cur).1.name = f.name := by
+  rcases setState_cases f j rid cur with h | h | ⟨st, c, h⟩
+  · rw [h]
+  · rw [h, drop_name]
+  · rw [h]; rfl
+
+theorem setState_states (f : FC) (j : Inst) (rid cur : Int) :
+    ∀ p ∈ (setState f j rid cur).1.states, p ∈ f.states ∨ p.1 = j := by
+  rcases setState_cases f j rid cur with h | h | ⟨st, c, h⟩
+  · rw [h]; intro p hp; exact Or.inl hp
+  · rw [h]; intro p hp; exact Or.inl (drop_states_sub f j p hp)
+  · rw [h]; exact put_states f j st c
+
+theorem setState_getState_ne (f : FC) (i j : Inst) (rid cur : Int) (h : i ≠ j) :
+    (setState f j rid cur).1.getState i = f.getState i := by
+  rcases setState_cases f j rid cur with e | e | ⟨st, c, e⟩
+  · rw [e]
+  · rw [e, drop_getState_ne _ _ _ h]
+  · rw [e, put_getState_ne _ _ _ _ _ h]
+
+/-! ### lists of flow controls -/
+
+/-- no max-in-flight flow control of the list counts a state for `i`. -/
+def NoStateL (i : Inst) (fcs : List (Nat × Ups × FC)) : Prop :=
+  ∀ r ∈ fcs, r.2.2.isMif = true → ∀ p ∈ r.2.2.states, p.1 ≠ i
+
+/-- `g` does not introduce a state of `i`. -/
+def Clean (i : Inst) (g : FC → FC) : Prop :=
+  ∀ f, (f.isMif = true → ∀ p ∈ f.states, p.1 ≠ i) → ((g f).isMif = true → ∀ p ∈ (g f).states, p.1 ≠ i)
+
+theorem noStateL_mapFC {i : Inst} {fcs : List (Nat × Ups × FC)} (sh : Nat) (u : Ups) (n : Str) (g : FC → FC)
+    (hg : Clean i g) (h : NoStateL i fcs) : NoStateL i (mapFC fcs sh u n g) := by
+  intro r hr
+  simp only [mapFC, List.mem_map] at hr
+  obtain ⟨r0, hr0, rfl⟩ := hr
+  split
+  · exact hg _ (h r0 hr0)
+  · exact h r0 hr0
+
+theorem noStateL_filter {i : Inst} {fcs : List (Nat × Ups × FC)} (p : Nat × Ups × FC → Bool) (h : NoStateL i fcs) :
+    NoStateL i (fcs.filter p) := fun r hr => h r (List.mem_filter.1 hr).1
+
+theorem noStateL_dropAll {i : Inst} {fcs : List (Nat × Ups × FC)} (ds : List Inst) (h : NoStateL i fcs) :
+    NoStateL i (fcs.map fun r => (r.1, r.2.1, dropAll ds r.2.2)) := by
+  intro r hr hm p hp
+  obtain ⟨r0, hr0, rfl⟩ := List.mem_map.1 hr
+  have hm0 : r0.2.2.isMif = true := by rw [← dropAll_isMif]; exact hm
+  exact h r0 hr0 hm0 p (dropAll_states_sub ds _ p hp)
+
+theorem clean_setState {i j : Inst} (h : i ≠ j) (rid cur : Int) : Clean i (fun f => (setState f j rid cur).1) := by
+  intro f hf hm p hp
+  have hm0 : f.isMif = true := by rw [← setState_isMif f j rid cur]; exact hm
+  cases setState_states f j rid cur p hp with
+  | inl h1 => exact hf hm0 p h1
+  | inr h1 => rw [h1]; exact Ne.symm h
+
+theorem newFC_states (sc : Schema) : (newFC sc).states = [] := by
+  unfold newFC; split <;> rfl
+
+theorem clean_newFC (i : Inst) (sc : Schema) : Clean i (fun _ => newFC sc) := by
+  intro f _ _ p hp; rw [newFC_states] at hp; cases hp
+
+theorem resizeFC_states (f : FC) (sc : Schema) : (resizeFC f sc).states = f.states := by
+  unfold resizeFC; split
+  · rfl
+  · split <;> rfl
+  · rfl
+
+theorem resizeFC_isMif (f : FC) (sc : Schema) : (resizeFC f sc).isMif = f.isMif := by
+  unfold resizeFC; split
+  · rfl
+  · split <;> rfl
+  · rfl
+
+theorem clean_resizeFC (i : Inst) (sc : Schema) : Clean i (fun f => resizeFC f sc) := by
+  intro f hf hm p hp
+  rw [resizeFC_states] at hp; rw [resizeFC_isMif] at hm
+  exact hf hm p hp
+
+theorem foldl_inv {α β : Type} (P : α → Prop) (f : α → β → α) (l : List β) (a : α)
+    (h : ∀ a b, P a → P (f a b)) (ha : P a) : P (l.foldl f a) := by
+  induction l generalizing a with
+  | nil => exact ha
+  | cons x t ih => exact ih _ (h _ _ ha)
+
+theorem noStateL_syncOne {i : Inst} (sh : Nat) (u : Ups) (fcs : List (Nat × Ups × FC)) (sc : Schema)
+    (h : NoStateL i fcs) : NoStateL i (syncOne sh u fcs sc) := by
+  unfold syncOne
+  split
+  · exact h
+  · split
+    · intro r hr
+      rcases List.mem_append.1 hr with h1 | h1
+      · exact h r h1
+      · rw [List.mem_singleton] at h1; subst h1
+        intro _ p hp; rw [newFC_states] at hp; cases hp
+    · split
+      · exact noStateL_mapFC _ _ _ _ (clean_newFC i sc) h
+      · exact noStateL_mapFC _ _ _ _ (clean_resizeFC i sc) h
+
+
+/-! ### frames: what each operation leaves alone -/
+
+section frames
+variable (shardOf : Ups → Nat)
+
+theorem syncFlowControl_frame (s : State) (sh : Nat) (u : Ups) (sc : List Schema) :
+    (syncFlowControl s sh u sc).hb = s.hb ∧ (syncFlowControl s sh u sc).conds = s.conds ∧
+    (syncFlowControl s sh u sc).leaders = s.leaders ∧ (syncFlowControl s sh u sc).listed = s.listed ∧
+    (syncFlowControl s sh u sc).shards = s.shards := by
+  unfold syncFlowControl; simp only []; split <;> exact ⟨rfl, rfl, rfl, rfl, rfl⟩
+
+theorem syncFlowControl_noState {i : Inst} (s : State) (sh : Nat) (u : Ups) (sc : List Schema)
+    (h : NoStateL i s.fcs) : NoStateL i (syncFlowControl s sh u sc).fcs := by
+  unfold syncFlowControl; simp only []; split
+  · exact h
+  · apply noStateL_filter
+    exact foldl_inv (NoStateL i) (syncOne sh u) sc s.fcs (fun a b ha => noStateL_syncOne sh u a b ha) h
+
+theorem handle_frame (s : State) (u : Ups) :
+    (handle shardOf s u).hb = s.hb ∧ (handle shardOf s u).leaders = s.leaders ∧
+    (handle shardOf s u).listed = s.listed ∧ (handle shardOf s u).shards = s.shards := by
+  unfold handle
+  simp only
+  split
+  · exact ⟨rfl, rfl, rfl, rfl⟩
+  · split
+    · exact ⟨rfl, rfl, rfl, rfl⟩
+    · split
+      · exact ⟨rfl, rfl, rfl, rfl⟩
+      · refine ⟨?_, ?_, ?_, ?_⟩
+        · rw [(syncFlowControl_frame _ _ _ _).1]
+        · rw [(syncFlowControl_frame _ _ _ _).2.2.1]
+        · rw [(syncFlowControl_frame _ _ _ _).2.2.2.1]
+        · rw [(syncFlowControl_frame _ _ _ _).2.2.2.2]
+
+theorem handle_noState {i : Inst} (s : State) (u : Ups) (h : NoStateL i s.fcs) :
+    NoStateL i (handle shardOf s u).fcs := by
+  unfold handle
+  simp only
+  split
+  · exact h
+  · split
+    · exact h
+    · split
+      · exact noStateL_filter _ h
+      · exact syncFlowControl_noState _ _ _ _ h
+
+theorem dropStore_noState {i : Inst} (s : State) (sh : Nat) (h : NoStateL i s.fcs) :
+    NoStateL i (dropStore s sh).fcs := noStateL_filter _ h
+
+theorem foldl_handle_inv (P : State → Prop) (h : ∀ a u, P a → P (handle shardOf a u))
+    (l : List (Ups × List Schema)) (a : State) (ha : P a) :
+    P (l.foldl (fun st p => handle shardOf st p.1) a) := by
+  induction l generalizing a with
+  | nil => exact ha
+  | cons x t ih => exact ih _ (h _ _ ha)
+
+theorem foldl_dropStore_inv (P : State → Prop) (h : ∀ a sh, P a → P (dropStore a sh))
+    (l : List Nat) (a : State) (ha : P a) : P (l.foldl dropStore a) := by
+  induction l generalizing a with
+  | nil => exact ha
+  | cons x t ih => exact ih _ (h _ _ ha)
+
+/-- whatever survives a change of `limitStoreMap`'s key set, `UpstreamConditionHandler` and `stopLeading`
+    survives `leaderCheck`. -/
+theorem leaderCheck_inv (P : State → Prop) (h0 : ∀ a l, P a → P { a with shards := l })
+    (h1 : ∀ a u, P a → P (handle shardOf a u)) (h2 : ∀ a sh, P a → P (dropStore a sh))
+    (s : State) (hs : P s) : P (leaderCheck shardOf s) := by
+  unfold leaderCheck
+  simp only
+  exact foldl_dropStore_inv P h2 _ _ (foldl_handle_inv shardOf P h1 _ _ (h0 _ _ hs))
+
+theorem leaderCheck_hb (s : State) : (leaderCheck shardOf s).hb = s.hb :=
+  leaderCheck_inv shardOf (fun st => st.hb = s.hb) (fun _ _ ha => ha)
+    (fun a u ha => by rw [(handle_frame shardOf a u).1]; exact ha) (fun _ _ ha => ha) s rfl
+
+theorem leaderCheck_noState {i : Inst} (s : State) (h : NoStateL i s.fcs) :
+    NoStateL i (leaderCheck shardOf s).fcs :=
+  leaderCheck_inv shardOf (fun st => NoStateL i st.fcs) (fun _ _ ha => ha)
+    (fun a u ha => handle_noState shardOf a u ha) (fun a sh ha => dropStore_noState a sh ha) s h
+
+theorem report_frame (s : State) (u : Ups) (j : Inst) (ri : List (Str × Kind)) (q : List Item) :
+    (report shardOf s u j ri q).1.hb = s.hb ∧ (report shardOf s u j ri q).1.fcs = s.fcs ∧
+    (report shardOf s u j ri q).1.leaders = s.leaders := by
+  unfold report
+  repeat' (first | split | (simp only []; split))
+  all_goals exact ⟨rfl, rfl, rfl⟩
+
+theorem acquireOne_frame (j : Inst) (rid : Int) (sh : Nat) (u : Ups) (s : State) (rq : Str × Int) :
+    (acquireOne j rid sh u s rq).1.hb = s.hb ∧ (acquireOne j rid sh u s rq).1.conds = s.conds ∧
+    (acquireOne j rid sh u s rq).1.leaders = s.leaders := by
+  unfold acquireOne
+  repeat' (first | split | (simp only []; split))
+  all_goals exact ⟨rfl, rfl, rfl⟩
+
+theorem acquireOne_fcs (j : Inst) (rid : Int) (sh : Nat) (u : Ups) (s : State) (rq : Str × Int) :
+    (acquireOne j rid sh u s rq).1.fcs = s.fcs ∨
+    (acquireOne j rid sh u s rq).1.fcs = mapFC s.fcs sh u rq.1 (fun f => (setState f j rid rq.2).1) := by
+  unfold acquireOne
+  repeat' (first | split | (simp only []; split))
+  all_goals first
+    | exact Or.inl rfl
+    | exact Or.inr rfl
+
+theorem acquireLoop_inv (P : State → Prop) (j : Inst) (rid : Int) (sh : Nat) (u : Ups)
+    (h : ∀ s rq, P s → P (acquireOne j rid sh u s rq).1) (reqs : List (Str × Int)) :
+    ∀ s acc, P s → P (acquireLoop j rid sh u s reqs acc).1 := by
+  induction reqs with
+  | nil => intro s acc hs; exact hs
+  | cons rq rest ih =>
+    intro s acc hs
+    unfold acquireLoop
+    exact ih _ _ (h s rq hs)
+
+theorem acquire_inv (P : State → Prop) (s : State) (u : Ups) (j : Inst) (rid : Int) (reqs : List (Str × Int))
+    (h : ∀ s rq, P s → P (acquireOne j rid (shardOf u) u s rq).1) (hs : P s) :
+    P (acquire shardOf s u j rid reqs).1 := by
+  unfold acquire
+  simp only
+  split
+  · exact hs
+  · split
+    · exact hs
+    · exact acquireLoop_inv P j rid (shardOf u) u h reqs s [] hs
+
+theorem acquire_hb (s : State) (u : Ups) (j : Inst) (rid : Int) (reqs : List (Str × Int)) :
+    (acquire shardOf s u j rid reqs).1.hb = s.hb :=
+  acquire_inv shardOf (fun st => st.hb = s.hb) s u j rid reqs
+    (fun a rq ha => by rw [(acquireOne_frame j rid _ u a rq).1]; exact ha) rfl
+
+theorem acquire_conds (s : State) (u : Ups) (j : Inst) (rid : Int) (reqs : List (Str × Int)) :
+    (acquire shardOf s u j rid reqs).1.conds = s.conds :=
+  acquire_inv shardOf (fun st => st.conds = s.conds) s u j rid reqs
+    (fun a rq ha => by rw [(acquireOne_frame j rid _ u a rq).2.1]; exact ha) rfl
+
+theorem acquire_noState {i j : Inst} (hij : i ≠ j) (s : State) (u : Ups) (rid : Int) (reqs : List (Str × Int))
+    (h : NoStateL i s.fcs) : NoStateL i (acquire shardOf s u j rid reqs).1.fcs :=
+  acquire_inv shardOf (fun st => NoStateL i st.fcs) s u j rid reqs
+    (fun a rq ha => by
+      rcases acquireOne_fcs j rid (shardOf u) u a rq with e | e
+      · rw [e]; exact ha
+      · rw [e]; exact noStateL_mapFC _ _ _ _ (clean_setState hij rid rq.2) ha) h
+
+theorem cleanupTimeout_noState {i : Inst} (s : State) (now : Nat) (h : NoStateL i s.fcs) :
+    NoStateL i (cleanupTimeout shardOf s now).fcs := noStateL_dropAll _ h
+
+theorem cleanupUnknown_noState {i : Inst} (s : State) (h : NoStateL i s.fcs) :
+    NoStateL i (cleanupUnknown shardOf s).fcs := noStateL_filter _ (noStateL_dropAll _ h)
+
+end frames
+
 end KG.Lemmas.Reclaim
